@@ -112,8 +112,15 @@ fn walk(steps: &[Step], loc: ValuePointerRef, out: &mut Out) {
 }
 
 pub fn run_path(steps: &[Step], out: &mut Out) {
-    observe(ValuePointerRef::Origin, "reset", None, Some(steps), out);
-    walk(steps, ValuePointerRef::Origin, out);
+    let r = crate::util::quiet_catch(std::panic::AssertUnwindSafe(|| {
+        observe(ValuePointerRef::Origin, "reset", None, Some(steps), out);
+        walk(steps, ValuePointerRef::Origin, out);
+    }));
+    if let Err(m) = r {
+        // a panic of the code under test: an observation that agrees with nothing
+        out.emit(&json!({"e": "push", "step": {"t": "key", "k": format!("<panic: {m}>"), "i": ""}, "owned": [], "origin": true,
+                         "first": opt_s(None), "last": opt_s(None)}));
+    }
 }
 
 fn parse_path(v: &J) -> Vec<Step> {
